@@ -21,14 +21,14 @@ def run(tier):
     thorough = tier == "thorough"
     chk = C.Check("C20", tier)
     out = C.workdir("print_vals_" + tier)
-    res = C.run_tlc("MC_PrintVal", "MC_PrintVal_thorough.cfg" if thorough else "MC_PrintVal.cfg", workers=4,
+    res = C.run_tlc("MC_PrintVal", "MC_PrintVal_thorough.cfg" if thorough else "MC_PrintVal.cfg", workers=8 if thorough else 4,
                     timeout=3000 if thorough else 600, env_extra={"VERIF_OUT": out}, name="printval_" + tier)
     C.require_tlc_ok(res, "MC_PrintVal (round trips on both routes, MIN_INT, limb arithmetic, literal forms)")
     chk.add_tlc("MC_PrintVal", res, "invariants: LitRoundTrip, ProgRoundTrip (overflow iff MIN_INT inside), routes agree, "
                 "MIN_INT is the only int whose magnitude is not an int, decimal table = limbs, radix 2/8/16 digits "
                 "round-trip, FromDigits = Horner on small forms, leading zeros / underscores do not change the value, "
-                "from_str and program differ exactly at -2^63")
-    m = re.search(r'<<"PRINTVAL_UNIVERSE", (\d+), (\d+), (\d+)>>', res.out)
+                "from_str and program differ exactly at -2^63, parentheses transparent in programs, LitPrintsBack on near misses")
+    m = re.search(r'<<"PRINTVAL_UNIVERSE", (\d+), (\d+), (\d+), \d+>>', res.out)
     if not m:
         raise C.ToolError("MC_PrintVal did not report its universe")
     n_vals, n_forms, n_leaves = (int(x) for x in m.groups())
@@ -42,18 +42,22 @@ def run(tier):
             raise C.ToolError("vh print: " + r["error"])
     if rv["values"] != n_vals or rl["forms"] != n_forms:
         raise C.ToolError("the harness did not replay every emitted case")
+    def size(mm):
+        return len(str(mm.get("text") or ""))
+    rv["mismatches"].sort(key=size)   # simplest failing text first
+    rl["mismatches"].sort(key=size)
     for mm in rv["mismatches"]:
         chk.violation({"kind": mm["kind"], "text": mm.get("text"), "value": json.dumps(mm.get("value"), sort_keys=True)}, mm)
     for mm in rl["mismatches"]:
         chk.violation({"kind": mm["kind"], "text": mm.get("text")}, mm)
     # ---- impl -> spec
-    n, depth = (40000, 5) if thorough else (2500, 5)
+    n, depth = (120000, 5) if thorough else (2500, 5)
     trace = os.path.join(out, "gen_vals.ndjson")
     rc, txt = C.run_vh(["print", "genvals", str(n), str(depth), trace])
     g = json.loads(txt)
     for mm in g["mismatches"]:
         chk.violation({"kind": "gen_" + mm["kind"], "text": mm.get("text")}, mm)
-    tres = C.run_tlc("MC_PrintValTrace", "MC_PrintValTrace.cfg", workers=4, timeout=1800,
+    tres = C.run_tlc("MC_PrintValTrace", "MC_PrintValTrace.cfg", workers=8 if thorough else 4, timeout=1800,
                      env_extra={"VERIF_IN": trace}, name="printval_trace_" + tier)
     C.require_tlc_ok(tres, "MC_PrintValTrace (validation of printed random values)")
     chk.add_tlc("MC_PrintValTrace", tres, "tokens = PrintVal(v); each route answered what the specification says")
@@ -69,7 +73,7 @@ def run(tier):
                           {"what": "random value: the text's structure is not PrintVal(v), or a route did not answer "
                                    "what the specification says (from_str / prog: observed outcome)", "record": rec})
     cov = chk.cov
-    cov["traces_validated_against_impl"] = rv["values"] + rl["forms"] + g["records"]
+    cov["traces_validated_against_impl"] = rv["values"] + rv["near_misses"] + rl["forms"] + g["records"]
     cov["evaluations"] = rv["evaluations"] + rl["evaluations"] + 3 * g["records"]
     cov["distinct_nontrivial"] = (n_vals - n_leaves) + rl["forms"] + g["records"]
     cov["rule"] = ("distinct nested values of the model (containers; the %d scalar leaves not counted) + distinct "
@@ -78,6 +82,7 @@ def run(tier):
     cov["values"] = n_vals
     cov["leaves"] = n_leaves
     cov["literal_forms"] = n_forms
+    cov["near_misses_from_str"] = rv["near_misses"]
     cov["literal_forms_rejected"] = rl["forms_rejected_by_from_str"]
     cov["program_route_ok"] = rv["program_route_ok"]
     cov["program_route_rejected_min_int"] = rv["program_route_rejected_min_int"]
